@@ -3,6 +3,7 @@ import hashlib
 import json
 import os
 import random
+import re
 
 from . import core, corpus, vocabs
 
@@ -344,4 +345,159 @@ def check_split(prop, tier, seed, n_quick, n_thorough):
                 if r["accepted"]:
                     raise core.ToolError("negative control accepted")
                 break
+    return res
+
+
+def check_threads(tier, seed):
+    """C14: U1 Shared.tla (all interleavings of a small clone family) + real threads validated per clone"""
+    res = core.Result("C14", tier, seed)
+    q = tier == "quick"
+    u1 = core.tlc_check("MC_Shared", cfg="MC_Shared_quick.cfg" if q else "MC_Shared.cfg", workers=6 if q else 12, timeout=3600)
+    if not u1["ok"]:
+        raise core.ToolError("MC_Shared failed:\n" + u1.get("tail", ""))
+    res.add_tlc(u1)
+    res.cov["u1_models"].append({"model": "MC_Shared (3 clones, clone/deep_clone, lock/take/op/put/release interleavings)",
+                                 "distinct_states": u1["distinct"]})
+    rng = random.Random(f"C14-{seed}")
+    gs = corpus.all_grammars() + random_cfg_grammars(seed, 20)
+    n = 70 if q else 2500
+    eps = []
+    for i in range(n):
+        name, g = gs[(i + seed * 7) % len(gs)] if i < len(gs) else rng.choice(gs)
+        eps.append({"gid": name, "gram": g, "vocab": vocab_for(rng, g, rng.choice(["byte", "syn", "lang", "bpe"]), rng.choice([0, 0, 1])),
+                    "clones": rng.choice([2, 3, 4, 8, 16]), "ops": rng.randint(8, 20), "seed": rng.randrange(1 << 30),
+                    "slices": rng.choice([[], "default"])})
+    wd = core.workdir(f"C14-{tier}")
+    core.build_harness()
+    nsh = 8 if q else 16
+    shards = [eps[i::nsh] for i in range(nsh) if eps[i::nsh]]
+
+    def go(ix):
+        jp = os.path.join(wd, f"job{ix}.json")
+        tp = os.path.join(wd, f"trace{ix}.ndjson")
+        json.dump({"episodes": shards[ix]}, open(jp, "w"))
+        p = core.run_bin("threads", [jp, tp], timeout=7200)
+        st = json.loads(p.stdout.strip().splitlines()[-1])
+        tot = core.validate_file("Trace_EngineRel", tp, "C14", tier, seed, cfg="Trace_EngineRel_func.cfg", timeout=7200,
+                                 tagbase=f"C14{ix}")
+        return st, tot, tp
+
+    outs = core.parallel(go, list(range(len(shards))), workers=nsh)
+    for ix, (st, tot, tp) in enumerate(outs):
+        res.add_validation(tot)
+        res.cov["evaluations"] += st["events"]
+        res.cov["threads_spawned"] = res.cov.get("threads_spawned", 0) + sum(e.get("clones", 0) for e in st["episodes"])
+        for rj in tot["rejects"]:
+            res.violation(signature(rj), rj["replay"])
+        if ix == 0:
+            for ln in core.read_lines(tp)[1:7]:
+                res.sample(json.loads(ln) if len(ln) < 1500 else ln[:300] + "...")
+        lines = core.read_lines(tp)
+        cur = []
+        for ln in lines:
+            if '"ev":"Init"' in ln[:40]:
+                if len(cur) > 4:
+                    res.distinct(hashlib.sha1("\n".join(cur[1:]).encode()).hexdigest())
+                cur = []
+            cur.append(ln)
+    res.cov["rule"] = ("U1: every interleaving of lock / take-lexer / operate / put-back / release steps of 3 clones "
+                       "(clone and deep_clone) in spec/Shared.tla; U3: families of 2..16 clones with diverging histories, "
+                       "each driven by its own OS thread through random calls, every event logged at its return; TLC "
+                       "(EngineRel, functional view) requires each clone's answers to be the function of its own history "
+                       "that private fresh engines replaying that history show")
+    res.assumptions += ["data races below the mutex are memory-model questions this technique does not see",
+                        "per-call resource limits are not hit (default limits, small grammars)"]
+    negative_control("C14", res, view="func")
+    return res
+
+
+def sized_vocab(rng, n, text):
+    """a vocabulary of exactly n tokens: the bytes of the grammar text, multi-byte substrings, padding, EOS last"""
+    tb = [b for b in text.encode("utf-8", "replace") if b != 0xFF]
+    alpha = sorted(set(tb)) or [97]
+    words = [[b] for b in alpha][: max(1, n - 3)]
+    while len(words) < n - 2:
+        if len(tb) > 3 and rng.random() < 0.6:
+            i = rng.randrange(len(tb) - 1)
+            w = tb[i:i + rng.randint(2, 3)]
+        else:
+            w = [rng.choice(alpha), rng.choice(alpha), len(words) % 200]
+        words.append(list(w))
+    words = words[: n - 2]
+    words.append(list(b"\xff<a>"))
+    words.append(list(b"\xff<|end|>"))
+    return {"kind": "list", "words": words, "eos": len(words) - 1, "canonical": 0}
+
+
+def check_ffi(tier, seed):
+    """C17: the C API against twin Rust objects (harness ffi, spec/Trace_Ffi.tla)"""
+    res = core.Result("C17", tier, seed)
+    q = tier == "quick"
+    rng = random.Random(f"C17-{seed}")
+    gs = corpus.all_grammars() + random_cfg_grammars(seed, 10)
+    sizes = [31, 32, 33, 63, 64, 65, 95, 96, 97, 255, 256, 257, 262]
+    eps = []
+    for i in range(90 if q else 3000):
+        name, g = gs[(i + seed * 5) % len(gs)] if i < len(gs) else rng.choice(gs)
+        r = rng.random()
+        if r < 0.7:
+            voc = sized_vocab(rng, rng.choice(sizes), gram_text(g))
+        elif r < 0.85:
+            voc = vocabs.byte(0)
+        else:
+            voc = vocabs.bpe(rng.choice([300, 500]), 0)
+        eps.append({"gid": name, "gram": g, "vocab": voc, "steps": rng.randint(4, 10), "seed": rng.randrange(1 << 30),
+                    "par": rng.choice([2, 3, 5, 8, 16])})
+    wd = core.workdir(f"C17-{tier}")
+    core.build_harness()
+    nsh = 8 if q else 16
+    shards = [eps[i::nsh] for i in range(nsh) if eps[i::nsh]]
+
+    def go(ix):
+        jp = os.path.join(wd, f"job{ix}.json")
+        tp = os.path.join(wd, f"trace{ix}.ndjson")
+        json.dump({"episodes": shards[ix]}, open(jp, "w"))
+        p = core.run_bin("ffi", [jp, tp], timeout=7200, check=False)
+        if p.returncode != 0:
+            # the C API crashed the process: a violation by itself (nothing may abort)
+            return {"events": 0, "crash": p.returncode, "stderr": p.stderr[-400:]}, None, jp
+        st = json.loads(p.stdout.strip().splitlines()[-1])
+        tot = core.validate_file("Trace_Ffi", tp, "C17", tier, seed, timeout=7200, tagbase=f"C17{ix}")
+        return st, tot, tp
+
+    outs = core.parallel(go, list(range(len(shards))), workers=nsh)
+    for ix, (st, tot, tp) in enumerate(outs):
+        if tot is None:
+            res.violation({"kind": "process-crash", "rc": st["crash"], "stderr": st["stderr"]}, tp)
+            continue
+        res.add_validation(tot)
+        res.cov["evaluations"] += st["events"]
+        for rj in tot["rejects"]:
+            m = re.search(r'"api":"(\w+)"', rj["event"])
+            res.violation({"kind": rj.get("ev"), "api": m.group(1) if m else None, "gid": signature(rj).get("gid")}, rj["replay"])
+        if ix == 0:
+            for ln in core.read_lines(tp)[1:8]:
+                res.sample(json.loads(ln) if len(ln) < 1200 else ln[:300] + "...")
+    res.cov["distinct_nontrivial"] = len({json.dumps(e["gram"]) + str(len(e["vocab"].get("words", []))) for e in eps})
+    res.cov["rule"] = ("episodes = grammar x vocabulary (sizes around multiples of 32) with an LlgMatcher and a family of "
+                       "LlgConstraints next to twin Rust objects; every C result (mask words, validate count, ff tokens, "
+                       "commit result, rollback, error flags) is paired with the Rust result; compute_mask_into is called with "
+                       "buffer lengths 0, exact-1, exact, exact+1, 2*exact words and llg_par_compute_mask with shorter / equal "
+                       "/ longer buffers between canary words after poisoning the heap; TLC checks equality, zero fill, no "
+                       "bits at or above the vocabulary size and intact canaries (spec/Ffi.tla)")
+    res.assumptions += ["memory safety proper is outside a state/transition specification: an out-of-bounds read is seen only "
+                        "when it changes the buffer contents (heap poisoning makes that likely) or crashes the process"]
+    # negative control
+    lines = core.read_lines(os.path.join(wd, "trace0.ndjson"))
+    for i, ln in enumerate(lines):
+        if '"ev":"ParMask"' in ln[:30]:
+            ev = json.loads(ln)
+            ev["after"] = ev["after"] + [ev["len"] * 32 - 1]
+            bp = os.path.join(wd, "negctl.ndjson")
+            open(bp, "w").write("\n".join(lines[:i] + [json.dumps(ev)]) + "\n")
+            r = core.tlc_trace("Trace_Ffi", bp, tag="neg-C17")
+            res.cov["negative_controls"].append({"stray_bit_in_tail_rejected": not r["accepted"]})
+            if r["accepted"]:
+                raise core.ToolError("negative control accepted")
+            break
     return res
